@@ -395,3 +395,11 @@ def signed_message(ip, st, m, name):
     ent = entries(st, m)
     p, f = ent[name]
     return as_value("bytes", V.unhex(value_term(f["name"], f["message"])))
+
+
+@native
+def signed_tweak(ip, st, m, name):
+    """the tweak the element `name` declares (bytes): for ui / signer it is the hash of the installed application"""
+    ent = entries(st, m)
+    p, f = ent[name]
+    return as_value("bytes", V.unhex(f["tweak"]))
